@@ -51,6 +51,22 @@ fn call_stun(b: &[u8]) -> String {
         Err(e) => anyhow_text(&e),
     }
 }
+fn call_stunmi(b: &[u8]) -> String {
+    // key = the one `gen_stun` signs with when it signs; outcome class only
+    let _ = verify_message_integrity(b, &MI_KEY);
+    "ok ".into()
+}
+const MI_KEY: [u8; 16] = [7; 16];
+fn gen_stun_mi(rng: &mut Rng) -> Vec<u8> {
+    let mut tid = [0u8; 12]; tid.copy_from_slice(&rng.bytes(12));
+    let mut attrs = vec![StunAttribute::Username(format!("{}:{}", gen_str(rng, 6), gen_str(rng, 6)))];
+    if rng.chance(1, 2) { attrs.push(StunAttribute::Priority(rng.next() as u32)); }
+    if rng.chance(1, 2) { attrs.push(StunAttribute::UseCandidate); }
+    let msg = StunMessage { class: StunClass::Request, method: StunMethod::Binding, transaction_id: tid, attributes: attrs };
+    let v = msg.encode(Some(&MI_KEY), rng.chance(1, 2)).expect("stun encodes");
+    assert!(verify_message_integrity(&v, &MI_KEY), "genuine MESSAGE-INTEGRITY verifies");
+    v
+}
 fn call_ufrag(b: &[u8]) -> String {
     match rustrtc::verif_hooks::decoders::peer_ufrag_from_binding_request(b) { None => "ok none".into(), Some(s) => format!("ok some {}", hex(s.as_bytes())) }
 }
@@ -128,6 +144,7 @@ fn gen_binding_req(rng: &mut Rng) -> Vec<u8> {
 pub fn targets() -> Vec<Target> {
     vec![
         Target { stream: "stun", entry: "StunMessage::decode", call: call_stun, valid: gen_stun, alloc: Some((1, 64)), weight: 3 },
+        Target { stream: "stunmi", entry: "verify_message_integrity", call: call_stunmi, valid: gen_stun_mi, alloc: Some((1, 64)), weight: 1 },
         Target { stream: "ufrag", entry: "peer_ufrag_from_binding_request", call: call_ufrag, valid: gen_binding_req, alloc: Some((2, 64)), weight: 1 },
         Target { stream: "uname", entry: "username_from_stun_bytes", call: call_uname, valid: gen_binding_req, alloc: Some((1, 64)), weight: 1 },
     ]
@@ -166,7 +183,7 @@ impl Live {
             std::mem::forget(sink_sock); // keeps the port open; replies land in its queue and are dropped
             let turn = Arc::new(TurnClient::verif_new_udp(sock.clone(), sink));
             let peer: SocketAddr = "127.0.0.1:9".parse().unwrap();
-            turn.verif_bind_channel(BOUND_CHANNEL, peer).await;
+            turn.verif_add_channel(peer, BOUND_CHANNEL).await;
             (ice, rec, sock, sink, turn, peer)
         });
         Live { rt, ice, rec, sock, sink, turn, peer }
@@ -181,7 +198,7 @@ pub fn run_hpkt(run: &mut Run, live: &Live, pkt: &[u8], nt: bool) {
     let p = pkt.to_vec();
     let l = std::panic::AssertUnwindSafe(live);
     exec(run, "hpkt", &hex(pkt), "ice::handle_packet", nt, None, move || {
-        l.rt.block_on(l.ice.verif_handle_packet(&p, l.sink, l.sock.clone()));
+        l.rt.block_on(l.ice.verif_handle_packet(&p, l.sink, rustrtc::transports::ice::IceSocketWrapper::Udp(l.sock.clone())));
         l.observed()
     });
 }
@@ -264,10 +281,12 @@ pub fn special(run: &mut Run, rng: &mut Rng, thorough: bool) {
                 let mut m = v[..20 + k].to_vec(); m[2..4].copy_from_slice(&(k as u16).to_be_bytes());
                 super::run_bytes(run, &ts[0], &m, true);
             }
+            let g = gen_stun_mi(rng);
+            for k in 0..=(g.len() - 20) { let mut m = g[..20 + k].to_vec(); m[2..4].copy_from_slice(&(k as u16).to_be_bytes()); super::run_bytes(run, &ts[1], &m, true); }
             let b = gen_binding_req(rng);
             for k in 0..=(b.len() - 20) {
                 let mut m = b[..20 + k].to_vec(); m[2..4].copy_from_slice(&(k as u16).to_be_bytes());
-                super::run_bytes(run, &ts[1], &m, true); super::run_bytes(run, &ts[2], &m, true);
+                super::run_bytes(run, &ts[2], &m, true); super::run_bytes(run, &ts[3], &m, true);
             }
         }
     }
